@@ -12,7 +12,7 @@ from .interp import Exc, MapLoc
 
 MODULE_NAMES = {"np", "pm", "warnings", "math", "json", "itertools", "functools", "dataclasses",
                 "pulser", "copy", "inspect", "seq_decorators"}
-BUILTIN_FUNCS = {"chain", "wraps", "int", "float", "bool", "len", "abs", "max", "min", "sum", "set", "tuple", "list",
+BUILTIN_FUNCS = {"map", "slice", "chain", "wraps", "int", "float", "bool", "len", "abs", "max", "min", "sum", "set", "tuple", "list",
                  "dict", "sorted", "any", "all", "round", "isinstance", "hasattr", "getattr", "cast",
                  "range", "enumerate", "zip", "reversed", "str", "type", "repr", "print", "get_args",
                  "super", "object", "frozenset", "iter", "next", "id"}
@@ -245,6 +245,10 @@ class ExprMixin:
                 return [(Sym(z3.Lambda([q], z3.Or(z3.Select(a.t, q), z3.Select(b.t, q))), "qset"), st)]
             if isinstance(op, ast.Sub):
                 return [(Sym(z3.Lambda([q], z3.And(z3.Select(a.t, q), z3.Not(z3.Select(b.t, q)))), "qset"), st)]
+        # numpy elementwise arithmetic (A-NUMPY): array (+,-,*,/) scalar-or-array
+        if isinstance(a, SeqV) or isinstance(b, SeqV):
+            if isinstance(op, (ast.Add, ast.Sub, ast.Mult, ast.Div)) and not isinstance(a, (PyList, ListLoc)) and not isinstance(b, (PyList, ListLoc)):
+                return [(self.array_arith(op, a, b, st, node), st)]
         # lists concat
         if isinstance(a, PyList) and isinstance(b, PyList) and isinstance(op, ast.Add):
             return [(PyList(a.items + b.items, a.kind), st)]
@@ -316,6 +320,28 @@ class ExprMixin:
             zs = [z3.BoolVal(c) if isinstance(c, bool) else c for c in conds]
             return [(Sym(z3.And(*zs) if len(zs) > 1 else zs[0], "bool"), s)]
         return self.bind(self.eval_list([e.left] + e.comparators, st), f)
+
+    def array_arith(self, op, a, b, st, node=None):
+        j = z3.Int("j!aa")
+
+        def el(x):
+            if isinstance(x, SeqV):
+                return x, to_real(z3.Select(x.arr, j))
+            x = self.unopt(x, st, node)
+            t, k = znum(x)
+            return None, to_real(t)
+        sa, ta = el(a)
+        sb, tb = el(b)
+        n = (sa or sb).n
+        if sa is not None and sb is not None:
+            self.oblige(st, f"np:same-length@{self.ntag(node)}", sa.n == sb.n, "safety")
+        if isinstance(op, ast.Div):
+            if sb is None:
+                self.oblige(st, f"safe:div-nonzero@{self.ntag(node)}", tb != 0, "safety")
+            body = ta / tb
+        else:
+            body = {ast.Add: ta + tb, ast.Sub: ta - tb, ast.Mult: ta * tb}[type(op)]
+        return SeqV(n, z3.Lambda([j], body), "real")
 
     def array_compare(self, op, a, b, st, node=None):
         """numpy elementwise comparison -> boolean array (A-NUMPY; under A-REAL no NaN exists)."""
@@ -483,6 +509,10 @@ class ExprMixin:
         return self.bind(self.eval(e.value, st), f)
 
     def getattr(self, v, attr, st, node=None):
+        if attr == "size" and (isinstance(v, (int, float)) or (isinstance(v, Sym) and v.ty in ("int", "real"))):
+            return [(1, st)]
+        if attr == "size" and isinstance(v, SeqV):
+            return [(Sym(v.n, "int"), st)]
         if isinstance(v, FuncRef):
             if v.kind == "module":
                 if (v.qual, attr) in (("np", "pi"), ("math", "pi")):
@@ -493,6 +523,8 @@ class ExprMixin:
                 return [(FuncRef(f"{v.qual}.{attr}", "modattr"), st)]
             if v.kind == "class":
                 return [(FuncRef(f"{v.qual}.{attr}", "classattr"), st)]
+            if v.kind == "builtin" and v.qual == "object" and attr == "__setattr__":
+                return [(FuncRef("object.__setattr__", "func"), st)]
         from .models import SuperProxy
         if isinstance(v, SuperProxy):
             parents = self.src.bases.get(v.cls, [])
@@ -521,9 +553,14 @@ class ExprMixin:
             if f"{cls}.{attr}" in self.models or any(f"{c}.{attr}" in self.models for c in self.src.mro(cls)):
                 return [(BoundMethod(v, cls, attr), st)]
             raise OutOfSubset(f"attribute {cls}.{attr} not in shape", node)
+        if isinstance(v, Sym) and v.ty == "str" and attr in ("startswith", "endswith"):
+            return [(BoundMethod(v, "<builtin>", attr), st)]
         if isinstance(v, (ListLoc, SeqV, PyList, MapLoc, PyDict, ImgSet, ImgSetQ)) or (isinstance(v, Sym) and v.ty in ("qset", "real", "int")):
             return [(BoundMethod(v, "<builtin>", attr), st)]
         if isinstance(v, tuple) and hasattr(v, "_fields"):
+            return [(getattr(v, attr), st)]
+        from .models import PySlice
+        if isinstance(v, PySlice) and attr in ("start", "stop", "step"):
             return [(getattr(v, attr), st)]
         if isinstance(v, Closure) and attr == "__name__":
             return [(getattr(v, "fname", "?"), st)]
